@@ -133,10 +133,12 @@ class NativeMaster:
     """
 
     def __init__(self, sim, port, ops, name="m", rready=None, wvalid_pattern=None,
-                 on_cmd=None, on_wdata=None, on_rdata=None, max_reads=None):
+                 on_cmd=None, on_wdata=None, on_rdata=None, max_reads=None, loop=False):
         self.sim = sim
         self.name = name
         self.ops = ops
+        self.loop = loop and bool(ops)
+        self.nloop = 0
         self.nbytes = port.data_width // 8
         ix = sim.index
         self.i_cv, self.i_cr = ix(port.cmd.valid), ix(port.cmd.ready)
@@ -187,6 +189,11 @@ class NativeMaster:
             self.cur = None
             self.cv = 0
             self.k += 1
+            if self.k >= len(self.ops) and self.loop:
+                # replay the list with fresh write ids (data stays attributable)
+                self.nloop += 1
+                self.k = 0
+                self.ops = [dict(o, id=o["id"] + 10000000) if "id" in o else o for o in self.ops]
             if self.k < len(self.ops):
                 nxt = self.ops[self.k]
                 self.wait = nxt.get("delay", 0)
